@@ -1,6 +1,7 @@
 import Driver.Util
 import Driver.C01
 import Driver.C07
+import Driver.C02
 open Driver
 
 /-- dispatch one request line; returns the output lines -/
@@ -11,6 +12,9 @@ def dispatch (line : String) : IO (List String) := do
   | "spec" :: args => cmdSpec args
   | "decode" :: args => cmdDecode args
   | "c07" :: args => cmdC07 args
+  | "c02line" :: args => cmdC02Line args
+  | "c02tele" :: args => cmdC02Tele args
+  | "c14" :: args => cmdC14 args
   | _ => return ["error unknown-command"]
 
 partial def loop (hin : IO.FS.Stream) (hout : IO.FS.Stream) : IO Unit := do
